@@ -12,12 +12,14 @@ destination kept: it is handed back to the sources (`repay`) and never posted.
 namespace Ledger.C22
 open Ledger.Machine
 
+variable {cfg : Cfg}
+
 /-- `send <monetary>`: for a statement the compiler accepted, a successful execution
     appends postings that are all in the monetary's asset, non-negative, and whose
     sum plus the kept part is exactly the sent amount. -/
 theorem send_conserves (env : Env) (henv : EnvGood env) (ds : Decls) (mon : Expr) (src : VSource)
     (dst : Dest) (st st' : State) (hc : checkStmt ds (.send mon src dst) = .ok ())
-    (h : evalStmt env (.send mon src dst) st = .ok st') :
+    (h : evalStmt cfg env (.send mon src dst) st = .ok st') :
     ∃ asset amt new kept, evalMonetary env mon = .ok (asset, some amt) ∧
       st'.postings = st.postings ++ new ∧ (∀ p ∈ new, p.asset = asset ∧ 0 ≤ p.amount) ∧
       amountSum new + kept = amt ∧ 0 ≤ kept := by
@@ -45,21 +47,39 @@ theorem send_conserves (env : Env) (henv : EnvGood env) (ds : Decls) (mon : Expr
     funding the sources yield) and their sum plus the kept part is exactly the
     funds available from the sources. -/
 theorem send_all_sum_eq_available (env : Env) (assetE : Expr) (s : Source) (dst : Dest)
-    (st st' : State) (h : evalStmt env (.sendAll assetE (.src s) dst) st = .ok st') :
+    (st st' : State) (h : evalStmt cfg env (.sendAll assetE (.src s) dst) st = .ok st') :
     ∃ asset f b1 new kept, evalAssetE env assetE = .ok asset ∧
-      evalSource env asset s st.bal = .ok (f, b1) ∧
+      evalSource cfg env asset s st.bal = .ok (f, b1) ∧
       st'.postings = st.postings ++ new ∧ (∀ p ∈ new, p.asset = f.asset ∧ 0 ≤ p.amount) ∧
       amountSum new + kept = total f.parts ∧ 0 ≤ kept := by
   obtain ⟨asset, f, b1, new, kept, ha, hs, ok⟩ := sendAll_ok h
   exact ⟨asset, f, b1, new, kept, ha, hs, ok.postings,
     fun p hp => ⟨ok.assetOk p hp, ok.nonneg p hp⟩, ok.sum, ok.keptNonneg⟩
 
-/-- The full claim "the postings of `send [A *]` are in the statement's asset `A`".
-    It is FALSE of the real code (and of the model): see the counterexample. -/
-def send_all_in_statement_asset : Prop :=
+/-- The claim "the postings of `send [A *]` are in the statement's asset `A`", for a
+    variant `cfg` of the code. -/
+def send_all_in_statement_asset (cfg : Cfg) : Prop :=
   ∀ (env : Env) (assetE : Expr) (s : Source) (dst : Dest) (st st' : State) (a : String),
-    evalStmt env (.sendAll assetE (.src s) dst) st = .ok st' → evalAssetE env assetE = .ok a →
-    ∀ p ∈ st'.postings, p ∈ st.postings ∨ p.asset = a
+    evalStmt cfg env (.sendAll assetE (.src s) dst) st = .ok st' → evalAssetE env assetE = .ok a →
+    ∃ new, st'.postings = st.postings ++ new ∧ ∀ p ∈ new, p.asset = a ∧ 0 ≤ p.amount
+
+/-- What holds for every variant: when every overdraft clause of the source is in asset
+    `A` (or the compiler emits the asset check of commit 7a34851), all postings are in `A`. -/
+theorem send_all_in_statement_asset_partial (env : Env) (assetE : Expr) (s : Source) (dst : Dest)
+    (st st' : State) (a : String) (h : evalStmt cfg env (.sendAll assetE (.src s) dst) st = .ok st')
+    (ha : evalAssetE env assetE = .ok a) (ho : cfg.overdraftAssetCheck = true ∨ OdAsset env a s) :
+    ∃ new, st'.postings = st.postings ++ new ∧ ∀ p ∈ new, p.asset = a ∧ 0 ≤ p.amount := by
+  obtain ⟨asset, f, b1, new, kept, ha', hs, ok⟩ := sendAll_ok h
+  rw [ha] at ha'; cases ha'
+  refine ⟨new, ok.postings, fun p hp => ⟨?_, ok.nonneg p hp⟩⟩
+  rw [ok.assetOk p hp]
+  exact evalSource_asset cfg env a s st.bal f b1 hs ho
+
+/-- Since commit 7a34851 the claim holds in full for the current code: all postings of
+    `send [A *]` are in `A` (and non-negative). -/
+theorem send_all_in_statement_asset_holds : send_all_in_statement_asset Cfg.fixed := by
+  intro env assetE s dst st st' a h ha
+  exact send_all_in_statement_asset_partial env assetE s dst st st' a h ha (Or.inl rfl)
 
 /-- Witness script: the overdraft clause is in USD, the statement in GEM. -/
 def witnessScript : Script :=
@@ -69,23 +89,13 @@ def witnessScript : Script :=
 
 def witnessInput : Input := { vars := [], balance := fun _ _ => 0, accountMeta := fun _ => none }
 
-/-- Known finding (confirmed on the real code, sig `C22-sendall-overdraft-asset`):
-    `send [GEM *]` from a source `allowing overdraft up to [USD 79]` posts 79 USD. -/
-theorem send_all_in_statement_asset_counterexample :
-    postingsOf (sem witnessScript witnessInput) = some [⟨"bank", "u", "USD", 79⟩] := by
-  decide +kernel
-
-/-- What does hold for `send [A *]`: when every overdraft clause of the source is in
-    asset `A`, all postings are in `A`. -/
-theorem send_all_in_statement_asset_partial (env : Env) (assetE : Expr) (s : Source) (dst : Dest)
-    (st st' : State) (a : String) (h : evalStmt env (.sendAll assetE (.src s) dst) st = .ok st')
-    (ha : evalAssetE env assetE = .ok a) (ho : OdAsset env a s) :
-    ∃ new, st'.postings = st.postings ++ new ∧ ∀ p ∈ new, p.asset = a := by
-  obtain ⟨asset, f, b1, new, kept, ha', hs, ok⟩ := sendAll_ok h
-  rw [ha] at ha'; cases ha'
-  refine ⟨new, ok.postings, fun p hp => ?_⟩
-  rw [ok.assetOk p hp]
-  exact evalSource_asset env a s st.bal f b1 hs ho
+/-- The defect repaired by 7a34851, as a statement about the PRE-FIX variant of the
+    model: `send [GEM *]` from a source `allowing overdraft up to [USD 79]` posted 79 USD;
+    the current variant rejects the script ("cannot add different assets"). -/
+theorem send_all_in_statement_asset_prefix_counterexample :
+    postingsOf (sem Cfg.preFix witnessScript witnessInput) = some [⟨"bank", "u", "USD", 79⟩] ∧
+    postingsOf (sem Cfg.fixed witnessScript witnessInput) = none := by
+  constructor <;> decide +kernel
 
 /-- A `kept` clause hands its funding back untouched: no posting, no balance change. -/
 theorem kept_produces_no_posting (env : Env) (asset : String) (f : List Part) (st : State) :
@@ -105,8 +115,8 @@ theorem destination_conserves (env : Env) (asset : String) (d : Dest) (f : List 
 
 /-- The tracked balance of every pair of a non-world account equals the initial
     balance plus the postings of the run minus what `save` removed. -/
-theorem balances_track (s : Script) (inp : Input) (r : Result) (h : sem s inp = .ok r)
-    (a c : String) (ha : a ≠ "world") (v0 : Int) (hv : trackedInit s inp a c = some v0) :
+theorem balances_track (s : Script) (inp : Input) (r : Result) (h : sem cfg s inp = .ok r)
+    (a c : String) (ha : a ≠ "world") (v0 : Int) (hv : trackedInit cfg s inp a c = some v0) :
     v0 = inp.balance a c ∧
     r.final.bal.get a c =
       some (inp.balance a c + flowIn a c r.postings - flowOut a c r.postings - r.final.saved a c) := by
@@ -145,10 +155,10 @@ def exInput : Input :=
     balance := fun a c => if a = "a" ∧ c = "USD" then 70 else if a = "b" ∧ c = "USD" then 25 else 0,
     accountMeta := fun _ => none }
 
-example : postingsOf (sem exScript exInput) =
+example : postingsOf (sem Cfg.fixed exScript exInput) =
     some [⟨"a", "x", "USD", 34⟩, ⟨"a", "y", "USD", 33⟩] := by decide +kernel
 
-example : trackedInit exScript exInput "b" "USD" = some 25 := by decide +kernel
+example : trackedInit Cfg.fixed exScript exInput "b" "USD" = some 25 := by decide +kernel
 
 example : (checkStmts [("m", .monetary)] exScript.stmts = .ok ()) := by decide +kernel
 
